@@ -238,3 +238,154 @@ Proof.
   - exact refuted_only_more_urgent.
 Qed.
 Print Assumptions C19_refuted_before_fix.
+
+(* ======================================================================== *)
+(* Complements (proofs in Queue/BoostMore.v)                                  *)
+(* ======================================================================== *)
+From Asynkit Require Import Queue.Heap Queue.BoostMore.
+
+(* (a) C19_boost_safe_contents for the executed heap, with NO hypothesis (not
+   even on the factor or the draws): one maintenance run never changes the
+   multiset of (object, sequence number, base priority, inserted_at, class);
+   CPython's heapify algorithm (HeapqModel) is proved to permute. *)
+Theorem C19_boost_safe_contents_HPV : forall s : pos,
+  Permutation
+    (map (fun e => (eobj e, eseq e, base (epri e), ins_at (epri e), pclass (epri e)))
+         (arr (pq_ (do_maintenance HPV s))))
+    (map (fun e => (eobj e, eseq e, base (epri e), ins_at (epri e), pclass (epri e)))
+         (arr (pq_ s))).
+Proof. exact maintenance_contents_HPV. Qed.
+Print Assumptions C19_boost_safe_contents_HPV.
+
+(* ... and for every heap implementation whose heapify permutes *)
+Theorem C19_boost_safe_contents_any_heap : forall (H : heapimpl pv),
+  (forall a, Permutation (heapify H a) a) -> forall s : pos,
+  Permutation
+    (map (fun e => (eobj e, eseq e, base (epri e), ins_at (epri e), pclass (epri e)))
+         (arr (pq_ (do_maintenance H s))))
+    (map (fun e => (eobj e, eseq e, base (epri e), ins_at (epri e), pclass (epri e)))
+         (arr (pq_ s))).
+Proof. exact maintenance_contents. Qed.
+Print Assumptions C19_boost_safe_contents_any_heap.
+
+(* (b) In every reachable state (any boost factor, any draws, any history of
+   any operations) every queued entry has inserted_at <= n_inserted. *)
+Theorem C19_ins_at_inv : forall (f : Q) (draws : list Q) (history : list posop),
+  let s := pos_exec (pos_empty f draws) history in
+  Forall (fun e => ins_at (epri e) <= n_ins s) (arr (pq_ s)).
+Proof.
+  intros f ds ops. rewrite pos_exec_gexec. exact (ins_at_inv HPV HPV_heapspec f ds ops).
+Qed.
+Print Assumptions C19_ins_at_inv.
+
+Theorem C19_ins_at_inv_any_heap : forall (H : heapimpl pv), HeapSpec H ->
+  forall f draws history,
+  let s := gexec H (pos_empty f draws) history in
+  Forall (fun e => ins_at (epri e) <= n_ins s) (arr (pq_ s)).
+Proof. exact ins_at_inv. Qed.
+Print Assumptions C19_ins_at_inv_any_heap.
+
+(* inserted_at of a queued object only changes by append / append_pri / insert /
+   reschedule: after any other operation (popleft, remove, find, reschedule_all,
+   clear, iteration, len) every entry is an entry of the state before with the
+   same object and the same inserted_at *)
+Theorem C19_ins_at_frame : forall (H : heapimpl pv), HeapSpec H -> forall s op,
+  match op with
+  | QAppend _ _ | QAppendPri _ _ | QInsert _ _ | QResched _ _ => True
+  | _ => forall e', In e' (arr (pq_ (gstep H s op))) ->
+                    exists e, In e (arr (pq_ s)) /\
+                              eobj e' = eobj e /\ ins_at (epri e') = ins_at (epri e)
+  end.
+Proof. exact ins_at_frame. Qed.
+Print Assumptions C19_ins_at_frame.
+
+(* C19_prompt (b) without the explicit hypothesis on inserted_at: after ANY
+   history from the empty queue, with L >= 2 entries queued and the length kept
+   constant by popleft/append_pri rounds of arbitrary new entries, maintenance
+   runs in a round number L+1 .. L+max(10,L)+1, and in that run EVERY ENTRY OF
+   THE START STATE that is still queued - recognised by (object, sequence
+   number, base priority, inserted_at, class), the part of an entry that
+   maintenance never changes (C19_boost_safe_contents) - passes the straggler
+   test  inserted_at < n_inserted - len. *)
+Theorem C19_prompt_closed : forall (f : Q) (draws : list Q) (history : list posop)
+                                   (load : list (Z * Q)),
+  let s := pos_exec (pos_empty f draws) history in
+  let L := plen s in
+  2 <= L ->
+  L + Z.max 10 L + 1 <= Z.of_nat (length load) ->
+  exists l1 x l2, load = l1 ++ x :: l2 /\
+    L <= Z.of_nat (length l1) <= L + Z.max 10 L /\
+    maintenance_in_round HPV (pairs HPV s l1) x /\
+    forall o s1, pos_popleft HPV (pairs HPV s l1) = Some (o, s1) ->
+      let sm := pre_maint HPV s1 (fst x) (snd x) in
+      plen sm = L /\
+      forall e, In e (arr (pq_ sm)) ->
+        In (eobj e, eseq e, base (epri e), ins_at (epri e), pclass (epri e))
+           (map (fun e0 => (eobj e0, eseq e0, base (epri e0), ins_at (epri e0), pclass (epri e0)))
+                (arr (pq_ s))) ->
+        (ins_at (epri e) <? n_ins sm - plen sm) = true.
+Proof. exact prompt_closed. Qed.
+Print Assumptions C19_prompt_closed.
+
+(* (c) "so it eventually runs", deterministically.
+   boost_step m f r p   = priority() after one maintenance run in which the most
+                          urgent regular priority is m: p + r (m - p) f for a
+                          considered entry (p > m) with its draw r, else p
+   boost_many m f rs p  = ... after successive runs with draws rs, same m
+   shrink rho f         = max(0, 1 - rho f)
+   qpow x k             = x^k
+   One run of the model does boost_step on every entry it considers: *)
+Theorem C19_maintenance_shrinks : forall (H : heapimpl pv),
+  (forall a, Permutation (heapify H a) a) ->
+  forall (s : pos) (rho : Q) (e : entry pv) (m : Q),
+  (0 < factor s)%Q -> (0 < rho)%Q -> Forall (fun d => rho <= d)%Q (draws s) ->
+  (length (arr (pq_ s)) <= length (draws s))%nat ->
+  In e (arr (pq_ s)) -> regular e -> ins_at (epri e) < n_ins s - plen s ->
+  (* m is the priority of the most urgent regular entry *)
+  ((exists e0, In e0 (arr (pq_ s)) /\ regular e0 /\ (prio e0 == m)%Q) /\
+   (forall e0, In e0 (arr (pq_ s)) -> regular e0 -> (m <= prio e0)%Q)) ->
+  (m < prio e)%Q ->
+  exists e', In e' (arr (pq_ (do_maintenance H s))) /\
+    (eobj e', eseq e', base (epri e'), ins_at (epri e'), pclass (epri e'))
+    = (eobj e, eseq e, base (epri e), ins_at (epri e), pclass (epri e)) /\
+    (prio e' - m <= shrink rho (factor s) * (prio e - m))%Q /\ (prio e' <= prio e)%Q.
+Proof. exact maintenance_shrinks. Qed.
+Print Assumptions C19_maintenance_shrinks.
+
+(* The deterministic bound: with factor f > 0 and every draw >= rho > 0, after k
+   maintenance runs that consider the entry (same m in each) its priority() is
+   at most  m + max(0, 1 - rho f)^k (p - m), and never above p.  Hence
+   - if rho f >= 1, ONE run brings it to <= m (it then precedes the stream
+     entries of priority m that arrive later: older sequence number);
+   - any threshold t > m (e.g. the priority of less urgent stream entries) is
+     passed after the k with (1 - rho f)^k (p - m) <= t - m;
+   - but m itself is never reached while every draw has r f < 1, so "within k
+     runs priority() <= m" holds iff some draw has r f >= 1 (last clause). *)
+Theorem C19_eventually_runs_deterministic : forall (m f rho : Q) (rs : list Q) (p : Q),
+  (0 < f)%Q -> (0 < rho)%Q -> Forall (fun r => rho <= r)%Q rs -> (m < p)%Q ->
+  (boost_many m f rs p - m <= qpow (shrink rho f) (length rs) * (p - m))%Q /\
+  (boost_many m f rs p <= p)%Q /\
+  (shrink rho f < 1)%Q /\
+  (1 <= rho * f -> rs <> [] -> boost_many m f rs p <= m)%Q /\
+  (forall t, qpow (shrink rho f) (length rs) * (p - m) <= t - m -> boost_many m f rs p <= t)%Q.
+Proof.
+  intros m f rho rs p Hf Hrho Hall Hp.
+  destruct (boost_many_bound m f rho rs p Hf Hrho Hall Hp) as [B1 B2].
+  split; [exact B1|]. split; [exact B2|]. split; [exact (shrink_lt_1 rho f Hrho Hf)|]. split.
+  - intros H1 Hne. destruct rs as [|r rs]; [congruence|].
+    exact (boost_one_run_suffices m f rho r rs p Hf Hrho H1 Hall Hp).
+  - intros t Ht. exact (boost_passes_threshold m f rho rs p t Hf Hrho Hall Hp Ht).
+Qed.
+Print Assumptions C19_eventually_runs_deterministic.
+
+Theorem C19_eventually_runs_needs_big_draw : forall (m f : Q) (rs : list Q) (p : Q),
+  (0 < f)%Q -> (m < p)%Q ->
+  (Forall (fun r => 0 <= r /\ r * f < 1)%Q rs -> (m < boost_many m f rs p)%Q) /\
+  (forall rs1 r rs2, rs = rs1 ++ r :: rs2 -> Forall (fun r => 0 <= r)%Q rs ->
+     (1 <= r * f)%Q -> (boost_many m f rs p <= m)%Q).
+Proof.
+  intros m f rs p Hf Hp. split.
+  - intros Hall. exact (boost_never_reaches m f rs p Hf Hall Hp).
+  - intros rs1 r rs2 -> Hall Hr. exact (boost_reaches_with_big_draw m f rs1 r rs2 p Hf Hall Hr).
+Qed.
+Print Assumptions C19_eventually_runs_needs_big_draw.
